@@ -175,6 +175,37 @@ where
     }
 }
 
+/// The `memrchr*_iter` functions return `Rev<Memchr*>`: the same positions
+/// seen through the std adaptor. `next`/`next_back` are swapped back here so
+/// that the deque model is the same; `count()` goes through `Rev`'s fold
+/// (a `next_back` loop) instead of the specialised `Memchr::count`.
+struct RevWrap<I> {
+    it: core::iter::Rev<I>,
+}
+
+impl<I> DynIter for RevWrap<I>
+where
+    I: DoubleEndedIterator<Item = usize> + Clone + Send + 'static,
+{
+    fn next(&mut self) -> Result<Option<usize>, String> {
+        lib(|| self.it.next_back())
+    }
+    fn next_back(&mut self) -> Result<Option<usize>, String> {
+        lib(|| self.it.next())
+    }
+    fn hint(&self) -> Result<(usize, Option<usize>), String> {
+        lib(|| self.it.size_hint())
+    }
+    fn fork(&self) -> Result<Box<dyn DynIter>, String> {
+        let it = lib(|| self.it.clone())?;
+        Ok(Box::new(RevWrap { it }))
+    }
+    fn count(self: Box<Self>) -> Result<usize, String> {
+        let RevWrap { it } = *self;
+        lib(move || it.count())
+    }
+}
+
 macro_rules! impl_searcher {
     ($ty:ty, count = $has_count:tt) => {
         impl ByteSearcher for $ty {
@@ -278,9 +309,19 @@ impl ByteSearcher for Top {
         None
     }
     fn iter(self: Arc<Self>, h: &'static [u8]) -> Box<dyn DynIter> {
-        match self.arity {
-            1 => Box::new(Wrap { it: mc::Memchr::new(self.n[0], h), keep: () }),
-            2 => Box::new(Wrap { it: mc::Memchr2::new(self.n[0], self.n[1], h), keep: () }),
+        // three public ways to the same iterator; which one is a function of
+        // the call's arguments only (no generator state: the episode format
+        // and the other substrates' interpreters stay as they are)
+        let way = (h.len() + self.n[0] as usize) % 4;
+        match (self.arity, way) {
+            (1, 0) => Box::new(RevWrap { it: mc::memrchr_iter(self.n[0], h) }),
+            (2, 0) => Box::new(RevWrap { it: mc::memrchr2_iter(self.n[0], self.n[1], h) }),
+            (_, 0) => Box::new(RevWrap { it: mc::memrchr3_iter(self.n[0], self.n[1], self.n[2], h) }),
+            (1, 1) => Box::new(Wrap { it: mc::memchr_iter(self.n[0], h), keep: () }),
+            (2, 1) => Box::new(Wrap { it: mc::memchr2_iter(self.n[0], self.n[1], h), keep: () }),
+            (_, 1) => Box::new(Wrap { it: mc::memchr3_iter(self.n[0], self.n[1], self.n[2], h), keep: () }),
+            (1, _) => Box::new(Wrap { it: mc::Memchr::new(self.n[0], h), keep: () }),
+            (2, _) => Box::new(Wrap { it: mc::Memchr2::new(self.n[0], self.n[1], h), keep: () }),
             _ => Box::new(Wrap { it: mc::Memchr3::new(self.n[0], self.n[1], self.n[2], h), keep: () }),
         }
     }
